@@ -119,7 +119,30 @@ def batch_walks(g, rng, n):
         lambda e: e[1] == 'Exec' and e[2][0] == 2 and e[3] != e[0],
         lambda e: e[1] == 'Tx' and e[2][2] == 'contract' and len({x['s'] for x in e[2][1]}) < 3 and e[2][4] in ('ok', 'rejAuth'),
     ]
+    # second family: an accepted request, both replicas execute its block, then the SAME body again from the other account
+    # through a contract that STATICCALLs the precompile with the bound account as claimed sender
+    def static_walk():
+        cur = rng.choice(g.init)
+        k = step(cur, lambda e: e[1] == 'Tx' and e[2][4] == 'ok' and e[2][2] == 'contract')
+        if k is None:
+            return None
+        body = g.edges[k][2][0]
+        path = [k]
+        cur = g.edges[k][3]
+        for ph in (phases[2], phases[3], phases[4],
+                   lambda e: e[1] == 'Tx' and e[2][2] == 'static' and e[2][0] == body and len({x['s'] for x in e[2][1]}) == 3):
+            k = step(cur, ph)
+            if k is None:
+                return None
+            path.append(k)
+            cur = g.edges[k][3]
+        return tuple(drain_path(g, path))
     seen, out = set(), []
+    for _ in range(n):
+        p = static_walk()
+        if p and p not in seen and len(out) < n // 3:
+            seen.add(p)
+            out.append(list(p))
     for _ in range(n * 6):
         if len(out) >= n:
             break
